@@ -37,6 +37,8 @@ pub enum Op {
     RemoveMove(u8, u16),
     CloneContinue,
     Count,
+    /// every provided Iterator method on clones, against the sequence repeated next() gives
+    Methods,
 }
 
 #[derive(Clone, Debug, Serialize, Deserialize, PartialEq)]
@@ -291,6 +293,20 @@ fn interpret(c: &IterCase, strict_only: bool, st: &mut Stats) -> Result<Outcome,
                 it = cl;
                 trace.push("clone".into());
             }
+            Op::Methods => {
+                // the iterator's own next()-sequence from here is the model: whatever else the type
+                // overrides (count, last, nth, fold, ...) must agree with it. Not applicable once a
+                // mid-promotion op has desynchronised the cursor (recorded finding ii).
+                if tainted_mid {
+                    continue;
+                }
+                let seq: Vec<chess_movegen::ChessMove> = it.clone().take(400).collect();
+                if let Err(d) = crate::itermodel::fwd_consumers("C10 MoveGen", "a clone of the iterator at this point", &it, &seq.iter().copied(), true) {
+                    diverge!("{d}");
+                }
+                trace.push("methods".into());
+                classes.push("all provided Iterator methods compared with repeated next()");
+            }
             Op::Count => {
                 let n = it.clone().count();
                 trace.push(format!("count->{n}"));
@@ -393,6 +409,7 @@ fn op_strategy() -> impl Strategy<Value = Op> {
         2 => (0u8..6, any::<u16>()).prop_map(|(s, i)| Op::RemoveMove(s, i)),
         1 => Just(Op::CloneContinue),
         1 => Just(Op::Count),
+        1 => Just(Op::Methods),
     ]
 }
 
@@ -447,7 +464,7 @@ pub const C10: CheckDef = CheckDef {
     id: "C10",
     worker,
     replay,
-    rule: "case = (position reached by a generated playout, optional legals_masked start mask (or, in 12% of the cases, a king_legals(side to move) start, whose universe is the king's legal moves), list of ops over {next, len/is_empty/size_hint, set_mask, remove, remove_move (pending / already yielded / arbitrary move), clone-and-continue, count}, final cover under two complementary masks); masks are unions/intersections of {all, enemy pieces, a file, a rank, random, complement of the previous mask, the en-passant square and its complement, last rank}; after a legals_masked(m) start later masks are intersected with m. Oracle: set model R/M (see harness/vcheck/src/c10.rs). 60% of cases avoid by construction the two recorded findings (op while a promotion destination is partially emitted; remove_move with a promotion argument); in the rest a divergence counts as an exclusion only if it follows such an op (ii) or is explained by the sibling-promotion fork (i). Non-trivial = a mask change or removal after >= 1 next on a position with >= 2 source squares; distinct by (FEN, op trace).",
+    rule: "case = (position reached by a generated playout, optional legals_masked start mask (or, in 12% of the cases, a king_legals(side to move) start, whose universe is the king's legal moves), list of ops over {next, len/is_empty/size_hint, set_mask, remove, remove_move (pending / already yielded / arbitrary move), clone-and-continue, count, all provided Iterator methods on a clone vs its own next()-sequence}, final cover under two complementary masks); masks are unions/intersections of {all, enemy pieces, a file, a rank, random, complement of the previous mask, the en-passant square and its complement, last rank}; after a legals_masked(m) start later masks are intersected with m. Oracle: set model R/M (see harness/vcheck/src/c10.rs). 60% of cases avoid by construction the two recorded findings (op while a promotion destination is partially emitted; remove_move with a promotion argument); in the rest a divergence counts as an exclusion only if it follows such an op (ii) or is explained by the sibling-promotion fork (i). Non-trivial = a mask change or removal after >= 1 next on a position with >= 2 source squares; distinct by (FEN, op trace).",
     assumptions: &[
         "order of yielded moves is unspecified and never compared",
         "what widening a generation-time mask should reveal is not stated by the property: after legals_masked(m) every later mask is a subset of m",
